@@ -1,4 +1,4 @@
-import EG.Uni
+import EG.Prims
 /-
   EG.Query — mirror model (M) of
     traversal/helpers.py : neighbors (incl. the per-vertex cache), find_links
@@ -118,36 +118,41 @@ def firstJoining (w : World) (a b : VId) : List LId → Except Err (Option LId)
     | .error e => .error e
     | .ok o => if o = some b then .ok (some l) else firstJoining w a b ls
 
+end M
+
+namespace C
+variable (P : Prims)
+
 /-- `explicit.link_from_to(v1=a, lnktype=c, v2=b, dontdup)` -/
-def linkFromTo (f : Nat) (w : World) (a : VId) (c : LCls) (b : VId) (dontdup : Bool) :
+def linkFromTo (w : World) (a : VId) (c : LCls) (b : VId) (dontdup : Bool) :
     Except Err (World × LId) :=
   if dontdup then
-    match firstJoining w a b (w.links a) with
+    match M.firstJoining w a b (w.links a) with
     | .error e => .error e
     | .ok (some l) => .ok (w, l)
-    | .ok none => newLink f w c [some a, some b]
-  else newLink f w c [some a, some b]
+    | .ok none => newLink P w c [some a, some b]
+  else newLink P w c [some a, some b]
 
-def unlinkEach (f : Nat) (w : World) (a b : VId) : List LId → Option World
+def unlinkEach (w : World) (a b : VId) : List LId → Option World
   | [] => some w
   | l :: ls =>
-    match unlinkFrom f w l (some a) with
+    match P.unlinkFrom w l (some a) with
     | none => none
     | some w =>
-      match unlinkFrom f w l (some b) with
+      match P.unlinkFrom w l (some b) with
       | none => none
-      | some w => unlinkEach f w a b ls
+      | some w => unlinkEach w a b ls
 
 /-- `explicit.unlink(v1=a, v2=b, destroy)`; returns the removed links (the Python
     function returns them only when `destroy=False`) -/
-def unlink (f : Nat) (w : World) (F : Nat → LId → Option VId → Bool) (a b : VId) :
+def unlink (w : World) (F : Nat → LId → Option VId → Bool) (a b : VId) :
     Except Err (World × List LId) :=
-  match findLinks w F a b false 2 none with
+  match M.findLinks w F a b false 2 none with
   | .error e => .error e
   | .ok J =>
-    match unlinkEach f w a b J with
+    match unlinkEach P w a b J with
     | none => .error .recursion
     | some w => .ok (w, J)
 
-end M
+end C
 end EG
